@@ -42,7 +42,7 @@ from leaspy.io.data import Data, Dataset
 from leaspy.utils.weighted_tensor import WeightedTensor
 
 from ..core import Acc, CaseTimeout, digest, time_limit
-from ..models import EVENTS, INDIVIDUALS, MODEL_SPECS, build_model, cohort_dataset, cohort_frame, fresh_state
+from ..models import EVENTS, INDIVIDUALS, MODEL_SPECS, NAN, build_model, cohort_frame, fresh_state, visits_frame
 from ..oracle import same_tensor
 
 ID = "C17"
@@ -55,7 +55,10 @@ RULE = (
     "not all identical (mean / argmin not degenerate); distinct = distinct (configuration) among those"
 )
 ASSUMPTIONS = [
-    "cohorts are drawn from a 5-individual catalogue (1-3 visits, missing values, one single-visit individual); sizes 1-3",
+    "cohorts are drawn from a 5-individual catalogue (1-3 visits, missing values, one single-visit individual) plus 4 individuals "
+    "with two visits and no observed score at all; sizes 1-3",
+    "the start of an optimisation is the individual values the model's put_individual_parameters leaves in the state dedicated to the "
+    "individual (recorded by a spy of its own, so it is known even when the optimiser is never run)",
     "n_burn_in == n_iter (no kept draw) is outside the property's domain and not enumerated (design candidate D18)",
     "n_jobs = 1 only (the recording wrapper lives in this process); use_jacobian=True falls back to Powell (no model implements a jacobian)",
     "non-worsening is demanded up to 1e-6 * (|f0| + |f1| + 1): both objectives come from the same fresh-state evaluation, the "
@@ -118,6 +121,8 @@ def bounds(tier):
     return {
         "models": [f"{m}:{s}" for m, s in model_sources(tier)],
         "cohorts": COHORTS[tier],
+        "cohorts with an individual having visits but no observed score (drop_full_nan=False; event observed / censored, "
+        "before / after the mean onset age)": NOSCORE_COHORTS,
         "identifier schemes": list(LABELS),
         "input forms": ["data", "dataset", "dataframe (not for the joint model)"],
         "settings passed": ["keyword arguments", "AlgorithmSettings object"],
@@ -161,10 +166,53 @@ def _is_joint(spec):
     return spec["kind"] == "joint"
 
 
+# individuals with visits but not a single observed score (only ingested with drop_full_nan=False); for the joint model
+# their event still informs the posterior: event observed / censored, before / after the mean onset age (70)
+NOSCORE = {
+    "n_ob": [(60.0, [NAN] * 4), (62.0, [NAN] * 4)],
+    "n_oa": [(72.0, [NAN] * 4), (74.0, [NAN] * 4)],
+    "n_cb": [(60.0, [NAN] * 4), (62.0, [NAN] * 4)],
+    "n_ca": [(72.0, [NAN] * 4), (74.0, [NAN] * 4)],
+}
+ALL_INDIVIDUALS = dict(INDIVIDUALS, **NOSCORE)
+ALL_EVENTS = dict(EVENTS, n_ob=(64.0, 1), n_oa=(78.0, 1), n_cb=(64.0, 0), n_ca=(78.0, 0))
+NOSCORE_COHORTS = [["n_ob"], ["n_oa"], ["c", "n_cb"], ["n_ca", "b", "n_ob"]]
+
+
+def keeps_empty_visits(cohort):
+    """Cohorts holding an individual without any score are ingested with drop_full_nan=False (otherwise he is dropped)."""
+    return any(i in NOSCORE for i in cohort)
+
+
+def plain_frame(spec, cohort):
+    """Same table as lmc.models.cohort_frame, over the catalogue extended with the score-less individuals."""
+    if not keeps_empty_visits(cohort):
+        return cohort_frame(cohort, spec.get("dim", 2), joint=_is_joint(spec), binary=spec.get("noise") == "bernoulli")
+    dim = spec.get("dim", 2)
+    rows = []
+    for i in cohort:
+        for age, vals in ALL_INDIVIDUALS[i]:
+            vv = list(vals[:dim])
+            if spec.get("noise") == "bernoulli":
+                vv = [v if v != v else float(v > 0.3) for v in vv]
+            rows.append((i, age, vv))
+    return visits_frame(rows, [f"Y{k}" for k in range(dim)], ALL_EVENTS if _is_joint(spec) else None)
+
+
+def ingest(df, spec, keep_empty):
+    kw = {"drop_full_nan": False} if keep_empty else {}
+    return Data.from_dataframe(df, "joint", **kw) if _is_joint(spec) else Data.from_dataframe(df, **kw)
+
+
+def reference_dataset(cohort, spec):
+    """The harness' own dataset of the cohort (plain identifiers), ingested the same way as the case's input."""
+    return Dataset(ingest(plain_frame(spec, cohort), spec, keeps_empty_visits(cohort)), no_warning=True)
+
+
 def case_frame(spec, cohort, labels):
-    df = cohort_frame(cohort, spec.get("dim", 2), joint=_is_joint(spec), binary=spec.get("noise") == "bernoulli")
+    df = plain_frame(spec, cohort)
     mapping = LABELS[labels]
-    ids = [mapping[i] for i in df["ID"]]
+    ids = [mapping.get(i, i) for i in df["ID"]]
     if labels == "categorical":
         # categories deliberately in another order than the rows
         df["ID"] = pd.Categorical(ids, categories=sorted({mapping[i] for i in cohort}, reverse=True))
@@ -173,10 +221,10 @@ def case_frame(spec, cohort, labels):
     return df
 
 
-def to_form(df, spec, form):
+def to_form(df, spec, form, keep_empty=False):
     if form == "dataframe":
         return df
-    data = Data.from_dataframe(df, "joint") if _is_joint(spec) else Data.from_dataframe(df)
+    data = ingest(df, spec, keep_empty)
     return data if form == "data" else Dataset(data)
 
 
@@ -187,15 +235,16 @@ def single_dataset(cid, name):
     """The harness' own dataset of one catalogue individual (subset of the 5-individual table, so that a censored
     individual of the joint model can stand alone)."""
     spec = MODEL_SPECS[name]
-    if name not in _FULL_DATA:
-        df = cohort_frame(sorted(INDIVIDUALS), spec.get("dim", 2), joint=_is_joint(spec), binary=spec.get("noise") == "bernoulli")
-        _FULL_DATA[name] = Data.from_dataframe(df, "joint") if _is_joint(spec) else Data.from_dataframe(df)
-    return Dataset(_FULL_DATA[name][[cid]], no_warning=True)
+    key = (name, cid in NOSCORE)
+    if key not in _FULL_DATA:
+        ids = sorted(ALL_INDIVIDUALS) if cid in NOSCORE else sorted(INDIVIDUALS)
+        _FULL_DATA[key] = ingest(plain_frame(spec, ids), spec, cid in NOSCORE)
+    return Dataset(_FULL_DATA[key][[cid]], no_warning=True)
 
 
 def ingestible(spec, cohort):
     """The joint reader refuses a table without any observed event (outside this property)."""
-    return not _is_joint(spec) or any(EVENTS[i][1] for i in cohort)
+    return not _is_joint(spec) or any(ALL_EVENTS[i][1] for i in cohort)
 
 
 _FITTED_CACHE = {}
@@ -280,7 +329,7 @@ def spies():
             raise SpyError(f"minimize spy: {type(e).__name__}: {e}")
         res = orig_min(fun, *a, **kw)
         rec["minimize"].append({
-            "x0": x0, "nat": nat, "scaling": scl, "x": np.array(res.x, dtype=np.float64, copy=True), "fun": float(res.fun),
+            "state": state, "x0": x0, "nat": nat, "scaling": scl, "x": np.array(res.x, dtype=np.float64, copy=True), "fun": float(res.fun),
             "success": bool(res.success), "method": str(kw.get("method")), "nfev": int(getattr(res, "nfev", -1)),
         })
         return res
@@ -370,14 +419,30 @@ def run_case(case, model=None):
     if model is None:
         model = get_model(case["model"], case["source"])
     df = case_frame(spec, cohort, case["labels"])
-    data = to_form(df, spec, case["form"])
-    expected_keys = [str(LABELS[case["labels"]][i]) for i in cohort]
+    data = to_form(df, spec, case["form"], keeps_empty_visits(cohort))
+    expected_keys = [str(LABELS[case["labels"]].get(i, i)) for i in cohort]
     kwargs, n_burn = algo_kwargs(case)
     problems = []
     info = {}
     site = site_of(case)
     feat = feature_of(case, spec)
+    # fourth recording spy: the documented start of the optimisation = the individual values the model puts into the
+    # state dedicated to an individual (recorded whether or not the optimiser is run afterwards)
+    rec_starts = []
+    orig_pip = model.put_individual_parameters
+
+    def put_individual_parameters(state, dataset, *a, **kw):
+        out = orig_pip(state, dataset, *a, **kw)
+        try:
+            rec_starts.append({"state": state, "indices": [str(i) for i in dataset.indices],
+                               "nat": {n: state.get_tensor_value(n).detach().clone()[:1] for n in state.dag.individual_variable_names}})
+        except Exception as e:  # pragma: no cover
+            raise SpyError(f"start spy: {type(e).__name__}: {e}")
+        return out
+
+    model.put_individual_parameters = put_individual_parameters
     with spies() as rec, quiet():
+        rec["starts"] = rec_starts
         try:
             with time_limit(120):
                 if case.get("via", "kwargs") == "object":
@@ -390,9 +455,11 @@ def run_case(case, model=None):
         except (CaseTimeout, SpyError):
             raise
         except Exception as e:
+            del model.put_individual_parameters
             problems.append((f"{site}|raises {type(e).__name__}|{feature_of(case, spec, exception=True)}", f"{type(e).__name__}: {str(e)[:300]}"))
             return {"problems": problems, "outcome": f"raises:{type(e).__name__}", "nontrivial": False, "info": info}
 
+    del model.put_individual_parameters
     # ---- (A) keys, variables, shapes, finiteness
     variables = expected_variables(spec, model)
     ok_layout = True
@@ -448,42 +515,66 @@ def run_case(case, model=None):
 def check_scipy(case, spec, model, cohort, keys, returned, rec, problems, info):
     site = "scipy_minimize"
     calls = rec["minimize"]
-    if len(calls) != len(cohort):
-        problems.append((f"{site}|number of optimiser runs differs from the number of individuals|", f"{len(calls)} runs for {len(cohort)} individuals"))
-        return "bad run count", False
+    # whose run is it?  the state handed to the optimiser is the one the model initialised for that individual
+    start_of = {s["indices"][0]: s for s in rec["starts"] if len(s["indices"]) == 1}
+    label_of_state = {id(s["state"]): k for k, s in start_of.items()}
+    call_of = {}
+    if start_of:
+        for c in calls:
+            label = label_of_state.get(id(c["state"]))
+            if label is None or label in call_of:
+                problems.append((f"{site}|optimiser run on a state that is not the one initialised for an individual, or run twice|", f"{len(calls)} runs for {len(cohort)} individuals"))
+                return "bad runs", False
+            call_of[label] = c
+    elif len(calls) == len(cohort):
+        call_of = dict(zip(keys, calls))  # positional (the model's initialisation was not observed)
     moved = 0
+    skipped = 0
     methods = set()
-    for cid, key, c in zip(cohort, keys, calls):
-        methods.add(c["method"])
+    for cid, key in zip(cohort, keys):
+        c = call_of.get(key)
+        if key in start_of:
+            start = start_of[key]["nat"]
+        elif c is not None:
+            start = c["nat"]
+        else:
+            raise SpyError(f"C17: neither the initialisation nor the optimisation of individual {key!r} was observed")
         ds = single_dataset(cid, case["model"])
         ret = returned[key]
-        # (i) the optimiser starts at the individual's initial values; (ii) the returned point is its result
-        for what, x, target in (("start", c["x0"], {n: v.reshape(-1).to(torch.float64).numpy() for n, v in c["nat"].items()}),
-                                ("result", c["x"], ret)):
-            for n, (loc, scale, sl) in c["scaling"].items():
-                nat = loc.numpy() + scale.numpy() * x[sl]
-                tol = 1e-5 * np.abs(scale.numpy()) + 1e-6 * np.abs(nat) + 1e-12
-                if n not in target or target[n].shape != nat.shape or not (np.abs(nat - target[n]) <= tol).all():
-                    msg = f"individual {cid!r} variable '{n}': optimiser coordinates give {nat.tolist()}, {'initial values' if what == 'start' else 'returned'} {None if n not in target else target[n].tolist()}"
-                    sig = (f"{site}|optimiser start differs from the individual's initial values|" if what == "start"
-                           else f"{site}|returned parameters differ from the optimiser's result|")
-                    problems.append((sig, msg))
-        # (iii) non-worsening, by a fresh state on the harness' own data of this individual
-        f0 = objective(model, ds, c["nat"])
+        if c is not None:
+            methods.add(c["method"])
+            # (i) the optimiser starts at the individual's initial values; (ii) the returned point is its result
+            for what, x, target in (("start", c["x0"], {n: v.reshape(-1).to(torch.float64).numpy() for n, v in start.items()}),
+                                    ("result", c["x"], ret)):
+                for n, (loc, scale, sl) in c["scaling"].items():
+                    nat = loc.numpy() + scale.numpy() * x[sl]
+                    tol = 1e-5 * np.abs(scale.numpy()) + 1e-6 * np.abs(nat) + 1e-12
+                    if n not in target or target[n].shape != nat.shape or not (np.abs(nat - target[n]) <= tol).all():
+                        msg = f"individual {cid!r} variable '{n}': optimiser coordinates give {nat.tolist()}, {'initial values' if what == 'start' else 'returned'} {None if n not in target else target[n].tolist()}"
+                        sig = (f"{site}|optimiser start differs from the individual's initial values|" if what == "start"
+                               else f"{site}|returned parameters differ from the optimiser's result|")
+                        problems.append((sig, msg))
+        else:
+            skipped += 1
+        # (iii) non-worsening, by a fresh state on the harness' own data of this individual; the start is the documented
+        # initial point whether or not the optimiser was run
+        f0 = objective(model, ds, start)
         f1 = objective(model, ds, {n: torch.tensor(v, dtype=torch.float32).reshape(1, -1) for n, v in ret.items()})
-        info.setdefault("objectives", []).append([cid, f0, f1, c["fun"]])
+        info.setdefault("objectives", []).append([cid, f0, f1, None if c is None else c["fun"]])
+        how = f"method {c['method']}" if c is not None else "no optimisation performed"
         if not math.isfinite(f1):
             problems.append((f"{site}|objective at the returned point is not finite|", f"individual {cid!r}: {f1!r} (start: {f0!r})"))
         elif math.isfinite(f0) and f1 > f0 + 1e-6 * (abs(f0) + abs(f1) + 1.0):
-            problems.append((f"{site}|objective at the returned point is worse than at the start|method {c['method']}",
+            problems.append((f"{site}|objective at the returned point is worse than at the start|{how}",
                              f"individual {cid!r}: objective(returned) = {f1!r} > objective(start) = {f0!r}"))
         # (iv) the returned point is the one the optimiser reports, on this individual's data
-        if math.isfinite(f1) and abs(f1 - c["fun"]) > 1e-5 * max(1.0, abs(f1)) + 1e-6:
+        if c is not None and math.isfinite(f1) and abs(f1 - c["fun"]) > 1e-5 * max(1.0, abs(f1)) + 1e-6:
             problems.append((f"{site}|objective at the returned point differs from the value reported by the optimiser|",
                              f"individual {cid!r}: fresh evaluation {f1!r}, optimiser {c['fun']!r}"))
-        if not np.array_equal(c["x"], c["x0"]):
+        if c is not None and not np.array_equal(c["x"], c["x0"]):
             moved += 1
-    return f"scipy:{'/'.join(sorted(methods))}:moved {moved}/{len(cohort)}", moved > 0
+    return (f"scipy:{'/'.join(sorted(methods)) or 'none'}:moved {moved}/{len(cohort)}" + (f":{skipped} not optimised" if skipped else "")
+            + (":individual without score" if keeps_empty_visits(cohort) else "")), moved > 0
 
 
 def check_mcmc(case, spec, model, cohort, keys, returned, rec, n_burn, variables, problems, info):
@@ -529,7 +620,7 @@ def check_mcmc(case, spec, model, cohort, keys, returned, rec, n_burn, variables
         problems.append((f"{site}|attachment / regularity history is not one value per kept draw and individual|", f"{tuple(att.shape)} {tuple(reg.shape)}"))
         return "bad history", False
     # ---- every kept (attachment, regularity) is the from-scratch value of its draw
-    ds = cohort_dataset(cohort, spec)
+    ds = reference_dataset(cohort, spec)
     for k in range(n_kept):
         st = scratch_state(model, ds, {n: values[n][k] for n in names})
         a_ref = st.get_tensor_value("nll_attach_ind")
@@ -644,6 +735,10 @@ def shards(tier, seed):
                 continue
             out.append({"model": name, "source": source, "part": "mcmc", "cohort": cohort, "tier": tier, "seed": seed})
             out.append({"model": name, "source": source, "part": "scipy", "cohort": cohort, "tier": tier, "seed": seed})
+        for cohort in NOSCORE_COHORTS:
+            if ingestible(spec, cohort):
+                out.append({"model": name, "source": source, "part": "mcmc_small", "cohort": cohort, "tier": tier, "seed": seed})
+                out.append({"model": name, "source": source, "part": "scipy", "cohort": cohort, "tier": tier, "seed": seed})
     # simplest first: small cohorts, sampling before optimisation
     order = [m for m, _ in model_sources(tier)]
     out.sort(key=lambda s: (len(s.get("cohort", "xxx")), order.index(s["model"]), s["source"] != "loaded", s.get("cohort", []), s["part"] != "mcmc"))
@@ -666,6 +761,10 @@ def shard_cases(shard):
             for algo in ("mean_posterior", "mode_posterior"):
                 yield dict(base, cohort=cohort, labels="alpha", form="data", via="kwargs", algo=algo,
                            settings={"n_iter": 5, "burn": "frac0.5", "annealing": "off"}, seed=0)
+    elif shard["part"] == "mcmc_small":
+        for algo, burn, a, sd in itertools.product(("mean_posterior", "mode_posterior"), ("frac0.5", "count1"), ("off", "2_plateaus"), seeds_of(seed)):
+            yield dict(base, cohort=shard["cohort"], labels="alpha", form="data", via="kwargs", algo=algo,
+                       settings={"n_iter": 6, "burn": burn, "annealing": a}, seed=sd)
     else:
         gen = mcmc_cases(tier, seed) if shard["part"] == "mcmc" else scipy_cases(tier, seed)
         for c in gen:
